@@ -1271,7 +1271,8 @@ void check_limit_report(vh::Case &c,
       // holds everything recorded for it (only whole sets are folded into the overflow series)
       if (single_interval)
         VH_CHECK(c, v.sum == it->second.sum && (!Instr::is_hist(kind) || v.count == it->second.count),
-                 what << ": reports " << v.sum << " but " << it->second.sum << " was recorded for this set within "
+                 what << ": reports " << v.sum << " (" << v.count << " measurements) but " << it->second.sum << " ("
+                      << it->second.count << " measurements) was recorded for this set within "
                       << "the one interval the report covers (measurements of one set were split between its own "
                       << "series and another one)");
       if (bits)
